@@ -12,12 +12,26 @@ VALID = ['len(y)', 'sum(y)', 'max(y)', 'str(x)', 'cfg = {x: y, "n": d}\ncfg', 'l
          '(1 +\n2)', 'a = 1; b = 2\na + b', '# just a comment', '', '   ', '1 ;; 2', '"s" + 1', 'z = y', 'z.push(9); [y, z]',
          'h = v => v + x', 'h(1)', 'sorted([3,1,2])', 'rand(1, 6)', 'shuffle([1,2,3])', 'x = [x]', 'del d["k"]', 'y[0] = 7; y',
          '1 + 2 ', ' 1 + 2', '1 + 2\n', '1 +  2', '\n1 + 2', 'k = (a, b) => a + b; k(1, 2)', 'try_it = 1', 'str(d)']
+# texts whose outcome could depend on process / parser / tree state left by earlier calls: inexact and exact quotients and
+# other context-flag raisers, constant containers that get mutated, call sites of builtins that some mapping rebinds, lambdas
+# called repeatedly, literals with escapes and brackets spanning lines
+STATEFUL = ['1 / 3', '1 / 4', '10 / 4', '1 / 1048576', '2 / 3 + 1 / 4', 'x / 3', 'x / 4', '2 ** 0.5', '0.1 + 0.2', 'round(2 / 3, 2)',
+            '1 / 7 * 7', '10 ** 40 * 10 ** 40 / 3', '1e30 * 1e30', '[10, 20] | pop', '[1, 2, 3]', 'r = [1, 2, 3]; r.push(4); r',
+            '{"a": [1]}', 'c = {"a": [1]}; c["a"].push(2); c', '[[1], [2]][0]', '[1, 2].push(3)', 'w = [5, 6]; w.pop(); w',
+            'len([1, 2])', 'len("abc") + len([1])', 'map([[1], [2, 3]], len)', 'f2 = v => len(v); [f2([1]), f2([1, 2])]',
+            'str(1) + str([1])', 'sorted([3, 1, 2])', 'max([1, 5, 2])', '"a\\nb" + "c"', '"x" + "\\t"', '(1,\n2) => 3', '[1,\n 2,\n 3][1]',
+            'n = 0; n += 1; n', 't = [0]; t[0] += 1; t', 'u = {"k": 0}; u["k"] += 1; u', '5 * (60 * 60)', 'map([1, 2, 3], v => v * (60 * 60))',
+            'e = [] ; e', 'p = e; p.push(1); [e, p]', '1 if 1 / 3 > 0.3 else 2', 'abs(-1 / 3)', 'int(7 / 2)', 'sum([1 / 3, 1 / 3, 1 / 3])']
+
+CALLSITES = ['len([1, 2])', 'str(2)', 'sum([1, 2])', 'max([1, 2])', 'list(1, 2)', 'f2 = v => len(v); [f2([1]), f2([1, 2])]',
+             'map([[1], [2, 3]], v => len(v))', 'len("abc") + len([1])']
+
 NAMESRC = ['a + b', 'f(x, %my var% )', '"str" + name # comment', 'for x in y', 'a $ b', 'x = y.z(w)', '%a b% + %c', '1 2 3', 'a\nb;c']
 
 
 def pool(seed):
     rng = random.Random(f'{seed}/histpool')
-    out = list(VALID) + list(INVALID) + list(RUNTIME)
+    out = list(VALID) + list(INVALID) + list(RUNTIME) + list(STATEFUL) + list(CALLSITES)
     g = proggen.ProgGen(rng, maxdepth=3, hostfns=False, rand_ok=True, regex_ok=False)
     for _ in range(60):
         g.vars = {'x': proggen.T_NUM, 'y': proggen.T_LNUM, 'd': proggen.T_DICT}
@@ -40,7 +54,7 @@ def with_table(line, calls, table):
             need.append(c[1])
         elif c[0] == 'eval':
             need.append(c[1].rstrip())
-    return line + ' (parses ' + ' '.join(table[t] for t in dict.fromkeys(need)) + ')'
+    return line + ' (parses ' + ' '.join(table[t] for t in dict.fromkeys(need) if t in table) + ')'
 
 
 def history(rng, texts, cache, evals_only=False):
@@ -58,7 +72,7 @@ def history(rng, texts, cache, evals_only=False):
             ent.append(f'(S:{hx("y")} {he.lnum()})')
         if rng.random() < 0.5:
             ent.append(f'(S:{hx("d")} {he.dict_()})')
-        if rng.random() < 0.3:
+        if rng.random() < 0.5:
             # host bindings shadowing builtins (a cached tree must not remember the builtin)
             ent.append(f'(S:{hx(rng.choice(["len", "sum", "max", "str", "list"]))} {rng.choice([he.num(), "B:min", "B:len", "B:str"])})')
         maps.append(f'(M {idx} ' + ' '.join(ent) + ')')
@@ -66,12 +80,15 @@ def history(rng, texts, cache, evals_only=False):
     for _ in range(rng.randint(2, 12 if cache is not None else 10)):
         k = rng.randrange(10)
         t = rng.choice(texts)
-        if rng.random() < 0.25 and calls:
+        if rng.random() < (0.25 if cache in (None, 'none') else 0.4) and calls:
             # repeat / near-duplicate of an earlier source
             prev = [c for c in calls if c[0] in ('parse', 'eval')]
             if prev:
                 t = rng.choice(prev)[1]
                 t = rng.choice([t, t, t.rstrip() + ' ', t.rstrip() + '\n', t.rstrip()])
+        if rng.random() < 0.2:
+            # a call site of a builtin that one of the mappings may rebind
+            t = rng.choice(CALLSITES)
         if evals_only:
             k = 9
         if k <= 1:
